@@ -3,6 +3,9 @@ Negative controls (DESIGN §2.8): deliberate property-breaking edits applied to 
 /repo's package; the *deductive* part of the check (bounded stand-ins switched off) must reject each
 one through a named obligation.  A control that survives means the engine is unsound or the contract
 too weak: the thorough tier then fails with exit 3.
+
+Controls marked `benign=True` are the opposite: behaviour-preserving rewrites of code a shape rule looks at.  They
+must NOT produce a VIOLATION line (exit 0 or 2); one that does is a false alarm of the check and fails the same way.
 """
 
 import importlib
@@ -20,9 +23,17 @@ def make_scratch(edits):
     """Copy REPO/cdd (+setup files) to a temp dir and apply [(relpath, old, new)]; -> dir or raises"""
     d = tempfile.mkdtemp(prefix="cddvc_ctl_")
     shutil.copytree(os.path.join(common.REPO, "cdd"), os.path.join(d, "cdd"), ignore=shutil.ignore_patterns("__pycache__"))
-    for rel, old, new in edits:
+    for ed in edits:
+        rel, old, new = ed[:3]
         p = os.path.join(d, rel)
         s = open(p, encoding="utf-8").read()
+        if len(ed) > 3 and ed[3] == "rename":
+            # consistent renaming of an identifier throughout the file
+            if not re.search(r"\b%s\b" % re.escape(old), s) or re.search(r"\b%s\b" % re.escape(new), s):
+                shutil.rmtree(d, ignore_errors=True)
+                raise ValueError("rename %s -> %s does not apply in %s" % (old, new, rel))
+            open(p, "wt", encoding="utf-8").write(re.sub(r"\b%s\b" % re.escape(old), new, s))
+            continue
         if s.count(old) != 1:
             shutil.rmtree(d, ignore_errors=True)
             raise ValueError("control edit does not apply exactly once in %s (%d matches): %r" % (rel, s.count(old), old[:60]))
@@ -44,6 +55,11 @@ def run_one(args):
         viol = [m[0] for m in re.findall(r"^VIOLATION property=%s .*?obligation=(.*?)( no-failing-input-found)?$" % prop, out, re.M)]
         undec = re.findall(r"UNDECIDED property=%s obligation=(\S+)" % prop, out)
         exp = ctl.get("expect")
+        if ctl.get("benign"):
+            # a POSITIVE control: a behaviour-preserving rewrite.  It must raise no alarm: exit 0 (still proved) or 2
+            # (undecided), never a VIOLATION line.  ("killed" = the control did what it is there for)
+            ok = r.returncode in (0, 2) and not viol
+            return dict(name=ctl["name"], killed=ok, benign=True, exit=r.returncode, by=[], undecided=undec[:3], detail="" if ok else out[-600:])
         killed = r.returncode == 1 and bool(viol) and (exp is None or any(re.search(exp, v) for v in viol))
         return dict(name=ctl["name"], killed=killed, exit=r.returncode, by=viol[:4], undecided=undec[:3],
                     detail="" if killed else out[-600:])
@@ -66,5 +82,5 @@ def run_controls(prop):
         "killed": sum(1 for r in res if r["killed"]),
         "survivors": [r for r in res if not r["killed"] and not r.get("stale")],
         "stale": [r for r in res if r.get("stale")],
-        "table": [{k: r.get(k) for k in ("name", "killed", "exit", "by")} for r in res],
+        "table": [{k: r.get(k) for k in ("name", "killed", "exit", "by", "benign")} for r in res],
     }
